@@ -183,16 +183,20 @@ def run_one(ir, fmt, style, kw, rounds=ROUNDS):
             sig["typ_classes"] = ",".join(sorted({A.tclass(p.get("typ")) for _, p in p1}))
             sig["default_kinds"] = ",".join(sorted({A.vkind(p.get("default", O.ABSENT)) for _, p in p1}))
             return [dict(sig=sig, expected="round %d succeeds like round 1" % r, observed=str(e)[:300], detail=e.text)], "later-hop-raises", transitions
-        cur = dict(cur)
-        cur.pop("_internal", None)
+        # `_internal` stays in the live object (a real regeneration loop hands the parser's result to the emitter); exact() does not look at it
         states.append(exact(cur))
         if r >= 2:
             c = dict(ctx)
             c["round"] = min(r, 3)
             d = diff_exact(states[-2], states[-1], c)
             if d:
+                p1 = states[0]["params"]
                 for v in d:
                     v["detail"] = text
+                    if v["sig"].get("field") in ("header", "names", "returns"):
+                        v["sig"]["typ_classes"] = ",".join(sorted({A.tclass(p.get("typ")) for _, p in p1}))
+                        v["sig"]["default_kinds"] = ",".join(sorted({A.vkind(p.get("default", O.ABSENT)) for _, p in p1}))
+                        v["sig"]["doc_kinds"] = ",".join(sorted({"doc" if p.get("doc") else "nodoc" for _, p in p1}))
                 return d, "drift@%d" % r, transitions
             if r >= 2 and states[-1] == states[-2]:
                 # self-loop reached: deterministic code => all later rounds identical; still run to ROUNDS to validate determinism
